@@ -95,8 +95,13 @@ def gen_function(world, contracts, externals, key):
                     renv[r['name']] = sv
         ev1 = SpecEval(V, pkg, renv, hp, old=H0, results=rsv)
         try:
+            # postconditions are proved in the order written; each one, once stated as an obligation, may be used
+            # as a hypothesis by the later ones (cut rule) - this is how contracts pass proof hints to the solver
+            V.cur_block = None
             for k, (lab, ast, txt) in enumerate(c['ensures']):
-                V.add_obl('post', ev1.boolean(ast), rr, fn.get('pos', ''), label=lab or str(k), text=txt)
+                g_ = ev1.boolean(ast)
+                V.add_obl('post', g_, rr, fn.get('pos', ''), label=lab or str(k), text=txt)
+                V.add_hyp(z3.Implies(rr, g_))
             if 'noframe' not in c['flags']:
                 frame_obligations(V, X, c, ev0, H0, hp, rr, pkg)
         except SpecError as e:
